@@ -1,5 +1,6 @@
 import Driver.Codec
 import Driver.Db
+import Driver.Arith
 
 open SqliteDissect
 
@@ -8,8 +9,12 @@ def dispatch (toks : List String) : IO String := do
   | [] => pure "bad-op"
   | op :: _ =>
     let r : Option String ←
-      if op.startsWith "varint." || op.startsWith "serial." || op.startsWith "overflow." || op.startsWith "spec." then
+      if op.startsWith "spec.local" || op.startsWith "spec.ptrmap" || op.startsWith "spec.hdr" then
+        pure (Driver.Arith.handle toks)
+      else if op.startsWith "varint." || op.startsWith "serial." || op.startsWith "overflow." || op.startsWith "spec." then
         pure (Driver.Codec.handle toks)
+      else if op.startsWith "cell." || op.startsWith "ptrmap." || op.startsWith "hdr." then
+        pure (Driver.Arith.handle toks)
       else if op.startsWith "db." || op.startsWith "vh." then
         (try Driver.Db.handle toks catch e => pure (some s!"io-error {e}"))
       else pure none
